@@ -27,10 +27,16 @@ var devOf = map[string]int{
 	"c08.lengthSameValue":     refarr.DevLengthSameValue,
 }
 
+// allDevs is the union of the deviation models of the findings that are still
+// open: the model of a repaired defect must not explain anything any more (it
+// did, until the thorough tier showed a stale model masking the accepted
+// reading of splice(start)).
 func allDevs() int {
 	all := 0
-	for _, d := range devOf {
-		all |= d
+	for name, d := range devOf {
+		if run.MatcherOpen(name) {
+			all |= d
+		}
 	}
 	return all
 }
